@@ -5,5 +5,9 @@ CONSTANTS
   MaxLen = 2
   MaxArgs = 3
   MaxThrows = 3
+  RawAlphabet <- cRawAlphabet
+  MaxRaw = 3
+  NumClasses <- cNumClasses
+  NumPlaces <- cNumPlaces
 INVARIANT Emit
 CHECK_DEADLOCK FALSE
